@@ -347,6 +347,8 @@ def rule_R16_2(ctx):
                 fi = kd["fields"].index("exp_type")
                 name = None
                 cp = f.canon_op(aops[fi])
+                if cp[0][0] == "const" and cp[0][1].startswith(("'", '"')):
+                    name = eval(cp[0][1])
                 if cp[0][0] == "call":
                     c = f.call_at(cp[0][1])
                     if c is not None and c.args:
@@ -487,7 +489,7 @@ def rule_R16_4(ctx):
     for c_ in f.calls():
         h_ = prog.fns.get(c_.res) if not c_.is_ptr else None
         if h_ is not None and h_.full and not h_.is_closure and not h_.generated and h_.path != f.path \
-                and h_ not in helpers_ and (
+                and h_ not in helpers_ and prog.ctor_helper(h_.path) is None and (
                     any(True for _ in h_.aggregates(ERR, "InvalidOpTypes"))
                     or any(True for _ in h_.aggregates(ERR, "InvalidEqOpTypes"))):
             helpers_.append(h_)
